@@ -642,6 +642,16 @@ def shard(spec, acc):
                 acc.count('C17:integer_dtype_curves')
             if dd is not None and episodes(dd) >= 2:
                 acc.nontriv('C17', case['kind'], len(case['equity']), case['equity'][:6], case['start'])
+            if i % 3 == 1 and len(case['equity']) >= 4 and len(set(case['equity'][1:-1])) > 1:
+                # a sibling analysed next in the same process: same dates, same first, last, highest and lowest value, the
+                # values in between met in another order - its statistics are its own, not those of the curve before
+                sib = dict(case, figure=False, kind=case['kind'])
+                mid = case['equity'][1:-1]
+                sib['equity'] = [case['equity'][0]] + (mid[::-1] if i % 2 else mid[len(mid) // 2:] + mid[:len(mid) // 2]) \
+                    + [case['equity'][-1]]
+                run_case(sib, acc, random.Random(case['seed'] + 1), tmpdir)
+                acc.evaluations += 1
+                acc.count('C17:sibling_curves_same_ends_and_extremes')
             if i < 2:
                 acc.sample({'kind': case['kind'], 'start': case['start'], 'index': case['index'],
                             'n': len(case['equity']), 'equity_head': case['equity'][:8]})
